@@ -804,6 +804,16 @@ func (e *Env) trCall(x *ECall) TV {
 	case "cap":
 		v := e.tr(x.Args[0])
 		return TV{T: SCap(v.T), Go: types.Typ[types.Int]}
+	case "substr":
+		// substr(s, a, b) is the Go expression s[a:b] on strings
+		if len(x.Args) != 3 {
+			trFail("substr(s, a, b)")
+		}
+		v := e.tr(x.Args[0])
+		if v.T.Sort != SStr {
+			trFail("substr of %s", v.T.Sort)
+		}
+		return TV{T: mk(SStr, "ssub", v.T, e.tr(x.Args[1]).T, e.tr(x.Args[2]).T), Go: types.Typ[types.String]}
 	case "arr":
 		v := e.tr(x.Args[0])
 		return TV{T: SArr(v.T)}
